@@ -257,8 +257,10 @@ def run_miri(prop, tier, seed, meta):
     procs = []
     scale = meta.get("scale", {}).get("miri", 0.001)
     for i in range(NSHARDS):
+        # the Miri pass always interprets a scaled-down QUICK workload (about four orders of
+        # magnitude slower than native), whatever the tier of the surrounding run
         cmd = ["cargo", "+nightly", "miri", "run", "--offline", "--quiet", "--", "run", "--prop", prop,
-               "--tier", tier, "--seed", str(seed), "--shard", "%d/%d" % (i, NSHARDS), "--out", outdir,
+               "--tier", "quick", "--seed", str(seed), "--shard", "%d/%d" % (i, NSHARDS), "--out", outdir,
                "--scale", str(scale), "--profile-name", "miri", "--miri"]
         log = open(os.path.join(outdir, "log-%d.txt" % i), "w")
         procs.append((i, subprocess.Popen(cmd, cwd=HARNESS, env=env, stdout=log, stderr=subprocess.STDOUT), log))
